@@ -1,40 +1,6 @@
-/- GENERATED by harness/extract/py2lean.py from /repo/src/thefittest/utils/selections.py (tournament_selection)
-   on every run of the checks that depend on it. Do not edit. -/
+/- GENERATED: translation FAILED (call np.random.random(tour_size)) -/
 import TFV.Model.Imp
-
-set_option linter.unusedVariables false
-
 namespace TFV.Generated.Src
-open TFV
-
-structure tournament_selection.S where
-  argmax : Int := 0
-  i : Int := 0
-  t0 : List Int := []
-  to_return : List Int := []
-  tournament : List Int := []
-  brk : Bool := false
-  cnt : Bool := false
-  err : Bool := false
-  dry : Bool := false
-  ku : Nat := 0
-  kn : Nat := 0
-  kr : Nat := 0
-  kx : Nat := 0
-
-def tournament_selection (fitness : List Int) (rank : List Int) (tour_size : Int) (quantity : Int)  (samples : List (List Int)) : Option (List Int) :=
-  let s : tournament_selection.S := {}
-  let s := { s with to_return := (List.replicate (quantity).toNat (0 : Int)) }
-  let s := (Imp.forRange (0 : Int) quantity (fun s => s.brk) (fun i s =>
-    let s := { s with i := i }
-    let s := { s with t0 := Imp.getrow samples (s.kx : Int), dry := s.dry || decide (samples.length ≤ s.kx), kx := s.kx + 1 }
-    let s := { s with tournament := s.t0 }
-    let s := { s with err := s.err || ((! Imp.allInb fitness s.tournament) || (s.tournament).isEmpty) }
-    let s := { s with argmax := (Imp.argmax (Imp.gather fitness s.tournament)) }
-    let s := { s with err := s.err || (! Imp.inb s.tournament s.argmax) }
-    let s := { s with err := s.err || (! Imp.inb s.to_return s.i), to_return := Imp.seti s.to_return s.i (Imp.geti s.tournament s.argmax) }
-    s) s)
-  let s := { s with brk := false }
-  if s.err || s.dry then none else some (s.to_return)
-
+/-- the source of `tournament_selection` is outside the translatable subset: call np.random.random(tour_size) -/
+def tournament_selection.notRecognised : Unit := ()
 end TFV.Generated.Src
